@@ -6,6 +6,7 @@ import (
 	"context"
 	"net"
 	"net/netip"
+	"time"
 
 	"github.com/pion/stun/v3"
 )
@@ -16,6 +17,7 @@ func init() {
 	verifRegister("verifC06InboundUnknown", verifC06InboundUnknown)
 	verifRegister("verifC06AddLocal", verifC06AddLocal)
 	verifRegister("verifC06RestartAndFailed", verifC06RestartAndFailed)
+	verifRegister("verifC06ContinualGathering", verifC06ContinualGathering)
 }
 
 func verifContains(set []Candidate, c Candidate) bool {
@@ -214,9 +216,25 @@ func verifC06PrflxThenSignalled() {
 	a := w.a
 	w.pairAll()
 	msg := verifBindingRequest(verifTxID(), 1, verifU64(), verifChoice(2) == 1, verifU32())
-	n0 := w.remoteCount()
-	a.handleInbound(msg, w.locals[0], w.remotes[0].addrPort())
+	src := w.remotes[0].addrPort()
+	switch verifChoice(3) {
+	case 1, 2:
+		// the signalled candidate is an mDNS name; its answer came back in
+		// plain or in IPv4-mapped form (a dual-stack mDNS socket), and the
+		// peer's check arrives from either form of that address
+		verifReach("mdns-resolved")
+		mc, err := NewCandidateHost(&CandidateHostConfig{Network: udp, Address: "1f4712db-ea17-4bcf-a596-105139dfd8bf.local", Port: 2999, Component: ComponentRTP})
+		verifAssert(err == nil, "mdns-candidate")
+		forms := []string{"20.0.0.77", "::ffff:20.0.0.77"}
+		verifAssert(mc.setIPAddr(netip.MustParseAddr(forms[verifChoice(2)])) == nil, "resolved")
+		verifAssert(mc.NetworkType() == NetworkTypeUDP4, "resolved-candidate-is-udp4")
+		verifAssert(a.addRemoteCandidate(mc), "signalled-candidate-added")
+		src = netip.AddrPortFrom(netip.MustParseAddr(forms[verifChoice(2)]), 2999)
+	}
+	n0, p0 := w.remoteCount(), len(a.checklist)
+	a.handleInbound(msg, w.locals[0], src)
 	verifAssert(w.remoteCount() == n0, "request-from-a-signalled-address-creates-no-peer-reflexive-duplicate")
+	verifAssert(len(a.checklist) == p0, "request-from-a-signalled-address-creates-no-second-pair")
 	w.invBook("post", nil)
 	verifReach("done")
 }
@@ -339,5 +357,63 @@ func verifC06RestartAndFailed() {
 		}
 	}
 	_ = stun.MethodBinding
+	verifReach("done")
+}
+
+// Continual gathering: the interface monitor belongs to the gathering cycle
+// that started it. After Restart (or Failed) a new local address shows up and
+// the monitor's ticker fires: the ended generation's monitor is gone, nothing
+// is gathered for it, the new generation holds no local candidate until it is
+// asked to gather, and every socket opened so far is closed.
+func verifC06ContinualGathering() {
+	w := verifC08New(true)
+	a := w.a
+	a.continualGatheringPolicy = GatherContinually
+	a.networkMonitorInterval = 10 * time.Millisecond
+	a.lastKnownInterfaces = make(map[string]netip.Addr)
+	verifAssert(a.OnCandidate(func(Candidate) {}) == nil, "handler")
+	verifAssert(a.GatherCandidates() == nil, "GatherCandidates")
+	verifLetOthersRun() // the cycle has gathered the first address; its monitor waits for the ticker
+	locals, err := a.GetLocalCandidates()
+	verifAssert(err == nil && len(locals) == 1, "first-address-gathered")
+	switch verifChoice(3) {
+	case 0:
+		verifReach("restart")
+		verifAssert(a.Restart("c06newufrag", "c06newpasswordc06newpassword") == nil, "Restart")
+	case 1:
+		verifReach("failed")
+		verifAssert(a.loop.Run(a.loop, func(context.Context) { a.updateConnectionState(ConnectionStateFailed) }) == nil, "fail")
+	default:
+		// witness that the monitor is alive in this harness: while the
+		// generation lasts it does gather the new address
+		w.net.addAddress("eth1", "10.0.1.1")
+		verifTimerTicks(2)
+		verifLetOthersRun()
+		locals, err = a.GetLocalCandidates()
+		found := false
+		for _, c := range locals {
+			if c.Address() == "10.0.1.1" {
+				found = true
+			}
+		}
+		verifAssert(err == nil && found, "the-running-generation's-monitor-gathers-the-new-address")
+		verifReach("monitor-alive")
+		verifAssert(a.Close() == nil, "Close")
+		verifAssert(verifQuiesce() == 0, "no-goroutine-left")
+		return
+	}
+	w.net.addAddress("eth1", "10.0.1.1")
+	verifTimerTicks(2)
+	verifLetOthersRun()
+	locals, err = a.GetLocalCandidates()
+	verifAssert(err == nil && len(locals) == 0, "the-ended-generation's-monitor-gathers-nothing-for-the-next-one")
+	w.net.mu.Lock()
+	for _, c := range w.net.socks {
+		verifAssert(c.closes.Load() >= 1, "every-socket-of-the-ended-generation-is-closed")
+	}
+	verifAssert(len(w.net.socks) == 1, "nothing-is-opened-for-the-new-address")
+	w.net.mu.Unlock()
+	verifAssert(a.Close() == nil, "Close")
+	verifAssert(verifQuiesce() == 0, "no-goroutine-left")
 	verifReach("done")
 }
